@@ -26,9 +26,16 @@ class Toggle:
 
 
 # names bound (to the same objects) in the tawazi environment and in the reference environment
-from .sym import Opaque  # noqa: E402
+from .sym import EQALL, Opaque  # noqa: E402
 
-NAMED_CONSTS = {"OPQ0": Opaque("const", 0), "OPQ1": Opaque("const", 1), "MUT0": Toggle("MUT0"), "MUT1": Toggle("MUT1")}
+NAMED_CONSTS = {"OPQ0": Opaque("const", 0), "OPQ1": Opaque("const", 1), "MUT0": Toggle("MUT0"), "MUT1": Toggle("MUT1"), "EQALL": EQALL}
+
+
+def const_src(v):
+    """Source text of a default / constant: ["__name__", N] stands for the named constant N (survives the JSON of a replay)."""
+    if isinstance(v, (list, tuple)) and len(v) == 2 and v[0] == "__name__":
+        return v[1]
+    return repr(v)
 TOGGLES = [NAMED_CONSTS["MUT0"], NAMED_CONSTS["MUT1"]]
 BINOPS = ["+", "-", "*", "<", ">=", "==", "!=", "&", "|", "^", "//", "%", "<=", ">", "@", "**", "<<", ">>", "/"]
 UNOPS = ["-", "+", "~", "abs"]
@@ -76,7 +83,7 @@ class Gen:
         nparams = rng.randint(1 if is_inner else 0, 3)
         ndef = rng.randint(0, nparams)
         params = ["%s_x%d" % (name, i) for i in range(nparams)]
-        defaults = {p: rng.choice(CONSTS) for p in params[nparams - ndef:]}
+        defaults = {p: (["__name__", "EQALL"] if rng.random() < f.get("wildcard_defaults", 0.08) else rng.choice(CONSTS)) for p in params[nparams - ndef:]}
         prog = dict(name=name, params=params, defaults=defaults, fns=specs, inner={}, stmts=[], ret=None,
                     flagfree=True, depth=depth, touchy=self.touchy)
         # variables: name -> dict(shape, maybe_none, plain (known to be a term: usable in operators), elem (unpacked element))
@@ -141,7 +148,7 @@ class Gen:
             if for_flag and rng.random() < f.get("toggles", 0.12):
                 return rng.choice(["MUT0", "MUT1"])  # constant flag whose truthiness is only known when the call runs
             if not for_flag and rng.random() < f.get("opaque_consts", 0.08):
-                return rng.choice(["OPQ0", "OPQ1"])  # identity-sensitive, uncopyable constant
+                return rng.choice(["OPQ0", "OPQ1", "EQALL"])  # identity-sensitive, uncopyable constant / a wildcard that equals everything
             pool = FALSY_TRUTHY if for_flag else CONSTS
             return repr(rng.choice(pool))
 
@@ -308,7 +315,7 @@ class Gen:
 
 def render(prog, strip_flags=False, indent=""):
     """Source of this program (inner DAG programs are rendered separately, see all_sources)."""
-    sig = ", ".join(p if p not in prog["defaults"] else "%s=%r" % (p, prog["defaults"][p]) for p in prog["params"])
+    sig = ", ".join(p if p not in prog["defaults"] else "%s=%s" % (p, const_src(prog["defaults"][p])) for p in prog["params"])
     L = ["def %s(%s):" % (prog["name"], sig)]
     for st in prog["stmts"]:
         if st["op"] == "bin":
